@@ -11,7 +11,7 @@
 -/
 import DymVerif.Lemmas.CoreForkQuiet
 namespace DymVerif.C03
-open DymVerif DymVerif.Core
+open DymVerif DymVerif.Core DymVerif.Core.Fork
 
 /-- a rejected message leaves every component of the state untouched (the model returns its input
     state on error, mirroring baseapp's per-message cache context; that the real code does so is
